@@ -51,7 +51,7 @@ class G(object):
         name = '%s:%s%d' % (kind, self.r.choice(['a', 'b', 'x-', 'l']), self.nlabel)
         if self.o.get('wide_labels') and self.r.random() < self.o['wide_labels']:
             # label names LaTeX accepts beyond [a-z0-9:-]: blanks, capitals, dots, underscores-free punctuation
-            name = self.r.choice(['%s two %d', 'Main %s%d', '%s.%d', 'the %s no %d', '%s+%d', "%s'%d"]) % (kind, self.nlabel)
+            name = self.r.choice(['%s two %d', 'Main %s%d', '%s.%d', 'the %s no %d', '%s+%d', "%s'%d", '%s_%d', '%s_x_%d', '%s^%d']) % (kind, self.nlabel)
         if self.o.get('hostile_labels') and kind == 'sec' and self.r.random() < self.o['hostile_labels']:
             # labels that collide with static template names, with numbered names, or with each other once forbidden characters are replaced
             free = [x for x in (self.o.get('hostile_pool') or HOSTILE_LABELS) if x not in self.labels]
@@ -230,7 +230,12 @@ class G(object):
             return {'t': 'dmath', 'style': r.choice(['\\[', 'displaymath']), 'words': [self.mark()]}
         node = {'t': 'equation', 'star': False, 'words': [self.mark()]}      # equation* is amsmath, not base LaTeX
         if self.o['eqnarray'] and r.random() < 0.3:
-            node = {'t': 'eqnarray', 'star': False, 'rows': [{'words': [self.mark()], 'nonumber': r.random() < 0.3} for _ in range(r.randint(1, 3))]}
+            node = {'t': 'eqnarray', 'star': r.random() < 0.3, 'rows': [{'words': [self.mark()], 'nonumber': r.random() < 0.3} for _ in range(r.randint(1, 3))]}
+            if node['star']:
+                # eqnarray*: no row is numbered (the numbered class derives from the starred one in plasTeX)
+                for row in node['rows']:
+                    row['nonumber'] = False
+                return node
             if self.o['labels']:
                 for row in node['rows']:
                     if not row['nonumber'] and r.random() < 0.3:
@@ -282,6 +287,9 @@ class G(object):
                 'c': self.blocks(depth, r.randint(0, 3)), 'subs': [], 'label': None, 'toc': None}
         if o['labels'] and r.random() < 0.5:
             node['label'] = self.newlabel('sec')
+            if o.get('late_labels') and r.random() < o['late_labels'] and node['c'] and node['c'][0]['t'] == 'para' and not node['star']:
+                # the label stands after the first paragraph of the unit (with its footnotes, boxes, formulas) instead of directly after the command
+                node['late_label'] = True
         if level < 4 and self.nsec < o['maxsec']:
             have_direct = False
             for _ in range(r.choice([0, 0, 1, 2, 3])):
@@ -440,7 +448,8 @@ def p_blocks(blocks, ind=''):
             rows = []
             for row in b['rows']:
                 rows.append('%s & = & x%s%s' % (row['words'][0], ' \\nonumber' if row['nonumber'] else '', '\\label{%s}' % row['label'] if row.get('label') else ''))
-            out.append('\\begin{eqnarray}\n%s\n\\end{eqnarray}\n' % ' \\\\\n'.join(rows))
+            env = 'eqnarray*' if b.get('star') else 'eqnarray'
+            out.append('\\begin{%s}\n%s\n\\end{%s}\n' % (env, ' \\\\\n'.join(rows), env))
         elif t == 'verbatim':
             env = 'verbatim*' if b['star'] else 'verbatim'
             out.append('\\begin{%s}\n%s\n\\end{%s}\n' % (env, b['body'], env))
@@ -536,9 +545,12 @@ def p_tabular(b):
 def p_sec(s):
     name = SEC_NAMES[s['level']]
     out = '\\%s%s{%s}' % (name, '*' if s['star'] else '', p_inlines(s['title']))
-    if s.get('label'):
-        out += '\\label{%s}' % s['label']
-    out += '\n' + p_blocks(s['c'])
+    if s.get('label') and s.get('late_label'):
+        out += '\n' + p_inlines(s['c'][0]['c']) + '\\label{%s}\n' % s['label'] + (SEP[0] if len(s['c']) > 1 else '') + p_blocks(s['c'][1:])
+    else:
+        if s.get('label'):
+            out += '\\label{%s}' % s['label']
+        out += '\n' + p_blocks(s['c'])
     for sub in s['subs']:
         out += SEP[0] + p_sec(sub)
     return out
